@@ -8,7 +8,7 @@ import re
 from cfgtools import Defs
 
 CONST = {0x7f: "SMAX", 0x7fff: "SMAX", 0x80: "SBIT", 0x8000: "SBIT", 0xff: "UMAX", 0xffff: "UMAX", 8: "W", 16: "W", 7: "W-1", 15: "W-1",
-         9: "W+1", 17: "W+1", -128: "SMIN", -32768: "SMIN", 0x100: "CARRYBIT", 0x10000: "CARRYBIT"}
+         9: "W+1", 17: "W+1", -128: "SMIN", -32768: "SMIN", 0x100: "CARRYBIT", 0x10000: "CARRYBIT", 0xFFFFFFFF: "UMAX"}
 
 
 def tree(fn, defs, op, depth=0):
@@ -109,3 +109,89 @@ def sibling_pairs(P, module_prefix="instructions::arithmetic"):
         if m:
             pairs.setdefault(m.group(2), {})[m.group(1)] = fn
     return {k: v for k, v in pairs.items() if len(v) == 2}
+
+
+def single_node_diff(a, b):
+    """a and b have the same shape and differ in exactly one operator name or one leaf: (kind, in a, in b), else None"""
+    if a == b:
+        return None
+    if a[0] != b[0] or len(a) != len(b):
+        return None
+    if a[0] in ("const", "in", "var"):
+        return ("leaf", show(a), show(b))
+    if a[0] == "op":
+        if a[1] != b[1]:
+            return ("operator", a[1], b[1]) if a[2:] == b[2:] else None
+        diffs = [i for i in range(2, len(a)) if a[i] != b[i]]
+        if len(diffs) == 1:
+            return single_node_diff(a[diffs[0]], b[diffs[0]])
+        return None
+    if a[0] == "proj" and a[2] == b[2]:
+        return single_node_diff(a[1], b[1])
+    return None
+
+
+FLAG_CALLS = ("set_flag", "unset_flag", "set_flag_helper", "has_even_parity")
+
+
+def fingerprint(fn):
+    """what a flag-setting helper does, independent of statement order: the condition of every branch, the arguments of
+    every flag call, and the returned value, as normalised trees"""
+    import mir as M
+    defs = Defs(fn)
+    items = []
+    for bb in fn["blocks"]:
+        if bb.get("cleanup"):
+            continue
+        t = M.term(bb)
+        if t[0] == "switch":
+            items.append(("branch", tree(fn, defs, t[1])))
+        elif t[0] == "call":
+            name = (t[1].get("def") or "?").split("::")[-1]
+            if name in FLAG_CALLS:
+                items.append((name,) + tuple(tree(fn, defs, a) for a in t[2]))
+        elif t[0] == "return":
+            items.append(("returns", tree(fn, defs, ["copy", {"l": 0, "p": []}])))
+    return items
+
+
+def compare_fingerprints(fa, fb):
+    """-> ('same', n) | ('dropped', kind, op, operand, side) | ('node', kind, detail, x, y) | ('differ', n_a, n_b)"""
+    ra = list(fa)
+    rb = list(fb)
+    for x in list(ra):
+        if x in rb:
+            ra.remove(x)
+            rb.remove(x)
+    if not ra and not rb:
+        return ("same", len(fa))
+    if len(ra) == len(rb) and len(ra) <= 3:
+        # pair the leftovers greedily by kind
+        findings = []
+        rb2 = list(rb)
+        for x in ra:
+            cands = [y for y in rb2 if y[0] == x[0] and len(y) == len(x)]
+            hit = None
+            for y in cands:
+                for i in range(1, len(x)):
+                    if x[i] == y[i]:
+                        continue
+                    d1, d2 = dropped_operand(x[i], y[i]), dropped_operand(y[i], x[i])
+                    sn = single_node_diff(x[i], y[i])
+                    if d1:
+                        hit = ("dropped", x[0], d1[0], d1[1], "b")
+                    elif d2:
+                        hit = ("dropped", x[0], d2[0], d2[1], "a")
+                    elif sn:
+                        hit = ("node", x[0], sn[0], sn[1], sn[2])
+                    break
+                if hit:
+                    rb2.remove(y)
+                    break
+            if hit is None:
+                return ("differ", len(ra), len(rb))
+            findings.append(hit)
+        # all leftovers explained by the same kind of single slip
+        if findings and all(f[:4] == findings[0][:4] or f[0] == findings[0][0] for f in findings):
+            return findings[0]
+    return ("differ", len(ra), len(rb))
